@@ -224,6 +224,8 @@ class Provenance:
             for i, el in enumerate(t.elts):
                 if isinstance(value, (ast.Tuple, ast.List)) and len(value.elts) == len(t.elts):
                     self._bind(el, self.of(value.elts[i]), value.elts[i], st, weak)
+                elif isinstance(el, ast.Name) and self._is_scalar(el):
+                    self._bind(el, EMPTY, None, st, weak)  # `for name, filters in d.items()`: a str / int / bool carries no filters
                 else:
                     self._bind(el, v, None, st, weak)
         elif isinstance(t, ast.Starred):
@@ -237,6 +239,12 @@ class Provenance:
                 r = root_name(t)
                 if r is not None:
                     st[r] = st.get(r, EMPTY) | v
+
+    def _is_scalar(self, e: ast.AST) -> bool:
+        try:
+            return bool(self.scalar(e))
+        except Exception:  # noqa: BLE001
+            return False
 
     def _self_property(self, attr: str, st: dict[str, Tags], depth: int = 0) -> Tags | None:
         """`self.<attr>` where attr is a property of the analysed method's class: the tags of what the property returns, evaluated
@@ -390,7 +398,9 @@ class Provenance:
             out = EMPTY
             for k, v in zip(e.keys, e.values):
                 if k is not None:
-                    out |= self._ev(k, st)
+                    kt = self._ev(k, st)
+                    if not self._is_scalar(k):
+                        out |= kt
                 out |= self._ev(v, st)
             return out
         if isinstance(e, COMPS):
@@ -400,7 +410,8 @@ class Provenance:
                 for c in g.ifs:
                     self._ev(c, inner)
             if isinstance(e, ast.DictComp):
-                return self._ev(e.key, inner) | self._ev(e.value, inner)
+                kt = self._ev(e.key, inner)
+                return (EMPTY if self._is_scalar(e.key) else kt) | self._ev(e.value, inner)
             out = self._ev(e.elt, inner)
             if self.passes is not None and any(not t.startswith(("pre:", "via:", "acc:", "raw:")) for t in out):
                 ifs = [c for g in e.generators for c in g.ifs]
@@ -448,6 +459,8 @@ class Provenance:
             v = self._ev(e.value, st)
             self._bind(e.target, v, e.value, st)
             return v
-        if isinstance(e, ast.Await):
+        if isinstance(e, (ast.Await, ast.YieldFrom)):
             return self._ev(e.value, st)
+        if isinstance(e, ast.Yield):
+            return self._ev(e.value, st) if e.value is not None else EMPTY
         return EMPTY
